@@ -195,7 +195,8 @@ def mechanical(fn, how):
     how="swapeq":   `a == b` / `a != b`  ->  `b == a` / `b != a` (builtin str / int / None operands throughout the package)
     how="keywords": positional arguments of calls `self.m(...)` to methods of the same class passed by keyword
     how="retinline": `x = <expr>` immediately followed by `return x`  ->  `return <expr>`
-    how="withmerge": `with A: with B: body` (nothing else in the outer body)  ->  `with A, B: body`"""
+    how="withmerge": `with A: with B: body` (nothing else in the outer body)  ->  `with A, B: body`
+    how="waitfor":  `while K in L: <logging>; C.wait()`  ->  `C.wait_for(lambda: K not in L)`"""
     def f(src):
         out = dict(src)
         tree = ast.parse(src[fn])
@@ -241,6 +242,18 @@ def mechanical(fn, how):
                         outb.append(ast.Return(value=st.value))
                         i += 2
                         continue
+                    if how == "waitfor" and isinstance(st, ast.While) and not st.orelse and isinstance(st.test, ast.Compare) \
+                            and len(st.test.ops) == 1 and isinstance(st.test.ops[0], ast.In):
+                        waits = [b for b in st.body if isinstance(b, ast.Expr) and isinstance(b.value, ast.Call)
+                                 and isinstance(b.value.func, ast.Attribute) and b.value.func.attr == "wait" and not b.value.args]
+                        from .locks import is_logging_stmt as _isl
+                        if len(waits) == 1 and all(b is waits[0] or _isl(b) for b in st.body):
+                            pred = ast.Lambda(args=ast.arguments(posonlyargs=[], args=[], kwonlyargs=[], kw_defaults=[], defaults=[]),
+                                              body=ast.Compare(left=st.test.left, ops=[ast.NotIn()], comparators=st.test.comparators))
+                            outb.append(ast.Expr(value=ast.Call(func=ast.Attribute(value=waits[0].value.func.value, attr="wait_for", ctx=ast.Load()),
+                                                                args=[pred], keywords=[])))
+                            i += 1
+                            continue
                     if how == "withmerge" and isinstance(st, ast.With) and len(st.body) == 1 and isinstance(st.body[0], ast.With):
                         inner = st.body[0]
                         st.items = st.items + inner.items
@@ -735,6 +748,53 @@ VARIANTS = [
     ("C10", None, "twin: delete_object's look-up goes through a local helper function called inside the try",
      chain(rep_in(FHS, "delete_object", "            try:\n                object_info_dict = self._find_object(pid)\n", "            try:\n                object_info_dict = self._lookup_for_delete(pid)\n"),
            rep(FHS, "    def _delete_object_only(self, cid: str) -> None:\n", "    def _lookup_for_delete(self, pid: str):\n        info = self._find_object(pid)\n        return info\n\n    def _delete_object_only(self, cid: str) -> None:\n"))),
+    ("C07", "C07.e", "cid claim waits with a timed wait_for() and ignores its result",
+     rep_in(FHS, "_synchronize_object_locked_cids", "                while cid in self.object_locked_cids_th:\n                    self.fhs_logger.debug(f\"Cid ({cid}) is locked. Waiting.\")\n                    self.object_cid_condition_th.wait()\n",
+            "                self.object_cid_condition_th.wait_for(lambda: cid not in self.object_locked_cids_th, timeout=30)\n")),
+    ("C07", None, "twin: cid claim waits with wait_for(lambda: cid not in list)",
+     rep_in(FHS, "_synchronize_object_locked_cids", "                while cid in self.object_locked_cids_th:\n                    self.fhs_logger.debug(f\"Cid ({cid}) is locked. Waiting.\")\n                    self.object_cid_condition_th.wait()\n",
+            "                self.object_cid_condition_th.wait_for(lambda: cid not in self.object_locked_cids_th)\n")),
+    ("C08", "C08.b", "timed wait_for() on the cid claim gives up inside the try whose finally releases both tagging claims",
+     rep_in(FHS, "_synchronize_object_locked_cids", "                while cid in self.object_locked_cids_th:\n                    self.fhs_logger.debug(f\"Cid ({cid}) is locked. Waiting.\")\n                    self.object_cid_condition_th.wait()\n",
+            "                if not self.object_cid_condition_th.wait_for(lambda: cid not in self.object_locked_cids_th, 3600):\n                    raise TimeoutError(f\"Cid ({cid}) is locked.\")\n")),
+    ("C08", None, "twin: timed wait_for() on the object pid claim (first claim of delete_object, taken before its try) gives up with an error",
+     rep_in(FHS, "_synchronize_object_locked_pids", "                while pid in self.object_locked_pids_th:\n                    self.fhs_logger.debug(f\"Pid ({pid}) is locked. Waiting.\")\n                    self.object_pid_condition_th.wait()\n",
+            "                if not self.object_pid_condition_th.wait_for(lambda: pid not in self.object_locked_pids_th, 3600):\n                    raise TimeoutError(f\"Pid ({pid}) is locked.\")\n")),
+    ("C08", None, "twin: a local bound under a condition and read later under the same condition (size message built up front)",
+     chain(rep_in(FHS, "_verify_object_information", "        if file_size_to_validate is not None and file_size_to_validate > 0:\n            if file_size_to_validate != tmp_file_size:\n                err_msg = (\n",
+                  "        if pid is not None:\n            pid_note = str(pid)\n        if file_size_to_validate is not None and file_size_to_validate > 0:\n            if file_size_to_validate != tmp_file_size:\n                err_msg = (\n"),
+           rep_in(FHS, "_verify_object_information", "                    err_msg_for_pid = (\n                        f\"{err_msg} Tmp file deleted and file not stored for pid: {pid}\"\n                    )\n",
+                  "                    err_msg_for_pid = (\n                        f\"{err_msg} Tmp file deleted and file not stored for pid: {pid}\"\n                    ) + pid_note\n"))),
+    ("C08", "C08.g", "digest bound only inside the read loop: unbound for an empty object",
+     rep_in(FHS, "_computehash", "        hex_digest = hash_obj.hexdigest()\n        return hex_digest\n", "            hex_digest = hash_obj.hexdigest()\n        return hex_digest\n")),
+    ("C02", "C02.j", "digest bound only inside the read loop: unbound for an empty object",
+     rep_in(FHS, "_computehash", "        hex_digest = hash_obj.hexdigest()\n        return hex_digest\n", "            hex_digest = hash_obj.hexdigest()\n        return hex_digest\n")),
+    ("C15", "C15.c", "cid list cut at a character count after the rewrite",
+     rep_in(FHS, "_update_refs_file", "                    ref_file.truncate()\n", "                    ref_file.truncate(sum(len(line) for line in new_pid_lines))\n")),
+    ("C15", None, "twin: cid list cut at the position the text layer reports",
+     rep_in(FHS, "_update_refs_file", "                    ref_file.truncate()\n", "                    ref_file.truncate(ref_file.tell())\n")),
+    ("C12", "C12.i", "delete-all stops at the first document that vanished since the listing",
+     rep_in(FHS, "delete_metadata", "                        if os.path.isfile(path):\n                            objects_to_delete.append(\n                                self._rename_path_for_deletion(path)\n                            )\n",
+            "                        if not os.path.isfile(path):\n                            break\n                        objects_to_delete.append(self._rename_path_for_deletion(path))\n")),
+    ("C12", None, "twin: delete-all skips a vanished document with `continue`",
+     rep_in(FHS, "delete_metadata", "                        if os.path.isfile(path):\n                            objects_to_delete.append(\n                                self._rename_path_for_deletion(path)\n                            )\n",
+            "                        if not os.path.isfile(path):\n                            continue\n                        objects_to_delete.append(self._rename_path_for_deletion(path))\n")),
+    ("C13", "C13.f", "roll-back handler formats its message with % from run-time text before calling the roll-back",
+     rep_in(FHS, "_store_hashstore_refs_files", "                err_msg = f\"Unexpected exception: {ue}, reverting tagging process (untag obj).\"\n",
+            "                err_msg = (f\"Unexpected exception while tagging pid: {pid}, reverting \" \"tagging process. Details: %s\" % ue)\n")),
+    ("C13", None, "twin: roll-back handler message names the pid and cid (f-string only)",
+     rep_in(FHS, "_store_hashstore_refs_files", "                err_msg = f\"Unexpected exception: {ue}, reverting tagging process (untag obj).\"\n",
+            "                err_msg = f\"Unexpected exception while tagging pid: {pid} with cid: {cid}: {ue}, reverting tagging process (untag obj).\"\n")),
+    ("C14", "C14.h", "loader keeps only the keys present in hashstore.yaml and the verifier walks the loaded keys",
+     chain(rep_in(FHS, "_load_properties", "            if key != \"store_path\":\n                hashstore_yaml_dict[key] = yaml_data[key]\n", "            if key != \"store_path\" and key in yaml_data:\n                hashstore_yaml_dict[key] = yaml_data[key]\n"),
+           rep_in(FHS, "_verify_hashstore_properties", "            for key in self.property_required_keys:\n                # 'store_path' is required to init HashStore but not saved in `hashstore.yaml`\n                if key != \"store_path\":\n",
+                  "            for key in self.property_required_keys:\n                # 'store_path' is required to init HashStore but not saved in `hashstore.yaml`\n                if key != \"store_path\" and key in hashstore_yaml_dict:\n"))),
+    ("C14", None, "twin: loader tests for the key and raises KeyError itself",
+     rep_in(FHS, "_load_properties", "            if key != \"store_path\":\n                hashstore_yaml_dict[key] = yaml_data[key]\n", "            if key != \"store_path\":\n                if key not in yaml_data:\n                    raise KeyError(key)\n                hashstore_yaml_dict[key] = yaml_data[key]\n")),
+    ("C20", "C20.h", "argument files enabled in the client's parser",
+     rep(CLI, "            epilog=epilog,\n", "            epilog=epilog,\n            fromfile_prefix_chars=\"@\",\n")),
+    ("C20", None, "twin: parser keyword spelled out with its default value",
+     rep(CLI, "            epilog=epilog,\n", "            epilog=epilog,\n            fromfile_prefix_chars=None,\n            allow_abbrev=True,\n")),
     ("C13", "C13.h", "return inside finally swallows the error",
      rep_in(FHS, "_delete_object_only", "        finally:\n            self._release_object_locked_cids(cid)\n", "        finally:\n            self._release_object_locked_cids(cid)\n            return\n")),
 ]
@@ -776,7 +836,8 @@ def sweep(prop, A, jobs=16):
     generic.append((prop, None, "twin: every `if c: A else: B` rewritten as `if not c: B else: A`",
                     chain(restructure_ifs(FHS, "invert"), restructure_ifs(CLI, "invert"))))
     for how, what in (("swapeq", "operands of every == / != swapped"), ("keywords", "positional arguments of every self.method(...) call passed by keyword"),
-                      ("retinline", "`x = e; return x` written as `return e`"), ("withmerge", "directly nested with-statements merged")):
+                      ("retinline", "`x = e; return x` written as `return e`"), ("withmerge", "directly nested with-statements merged"),
+                      ("waitfor", "every claim wait loop `while K in L: C.wait()` written as `C.wait_for(lambda: K not in L)`")):
         generic.append((prop, None, f"twin: {what}", chain(mechanical(FHS, how), mechanical(CLI, how))))
     generic.append((prop, None, "twin: call arguments that are calls first bound to fresh locals", chain(more_mechanical(FHS, "tempargs"), more_mechanical(CLI, "tempargs"))))
     generic.append((prop, None, "twin: a debug logging statement at the start of every block of every method", chain(more_mechanical(FHS, "logging"), more_mechanical(CLI, "logging"))))
@@ -855,6 +916,10 @@ def apply_unified_diff(sources, diff_text):
                 continue
             hunks[cur][-1]["lines"].append(line if line else " ")
     for fn, hs in hunks.items():
+        if fn is not None and fn not in out and hs and all(h["old_start"] == 0 for h in hs):
+            # a file the patch creates
+            out[fn] = "\n".join(l[1:] for h in hs for l in h["lines"] if l[:1] == "+") + "\n"
+            continue
         if fn not in out or not hs:
             continue
         src = out[fn].split("\n")
